@@ -1,4 +1,13 @@
-"""Batch validation of run() traces against spec/RunGridTrace.tla."""
+"""Batch validation of run() traces against spec/RunGridTrace.tla, on two levels.
+
+strict    (constant Strict = TRUE):  the trace must be the behaviour of the model of the code as it is (same K list
+          as a sequence, same representatives, storage flags, evaluation / collection order, masks, restart files).
+property  (Strict = FALSE): what C10/C11/C12 need (see the header of RunGridTrace.tla), evaluated on the coarse
+          projection of the trace (`coarse`).
+
+A trace accepted on the strict level is accepted on the property level.  Only a rejection on the property level (or an
+invariant of RunGrid violated on either level) makes a verdict `ok = False`; a trace that only the strict level rejects
+comes back with ok = True and `repr` = what differed (information for the evidence file)."""
 import json
 import os
 import re
@@ -7,12 +16,15 @@ from . import tlc
 from .common import SPEC, MachineryError
 from .rungrid_world import GROUP_TLA, GROUPS
 
+LOOP_EVENTS = ("Wait", "EndCollect", "Complete", "Divide")
+PROCESS_EVENTS = ("Eval", "Collect", "EndProcess")
 
-def _cfg(geo, nstep, acc, sorted_listing, diagnose):
+
+def _cfg(geo, nstep, acc, sorted_listing, diagnose, strict):
     tmpl = open(os.path.join(SPEC, "RunGridTrace.cfg.tmpl")).read()
     return tmpl % dict(D=geo.D, N=geo.N, NDIV=geo.NDIV, LMAX=geo.LMAX, GROUP=GROUP_TLA[geo.group], NSTEP=nstep,
                        ACC="TRUE" if acc else "FALSE", SORTED="TRUE" if sorted_listing else "FALSE",
-                       DIAG="TRUE" if diagnose else "FALSE",
+                       DIAG="TRUE" if diagnose else "FALSE", STRICT="TRUE" if strict else "FALSE",
                        CELLSYM="FALSE" if GROUPS[geo.group].get("hex") else "TRUE")
 
 
@@ -25,60 +37,144 @@ def _clean(ev):
     return ev
 
 
-def _run(traces, geo, nstep, name, acc, sorted_listing, diagnose, timeout):
+def coarse(trace):
+    """projection for the property level: the events of the collection loop are dropped, and the frame of process()
+    (BeginProcess .. EndProcess, AppendPickle) is completed where the implementation does not report it"""
+    out = []
+    phase = "idle"      # idle | started (process() expected) | process | processed | pickled
+    for ev in trace:
+        e = ev.get("e")
+        if e in LOOP_EVENTS:
+            continue
+        if e in ("StartFresh", "StartRestart", "Refine"):
+            out.append(ev)
+            phase = "started"
+            continue
+        if e == "BeginProcess":
+            phase = "process"
+        elif e in PROCESS_EVENTS:
+            if phase == "started":
+                out.append(dict(e="BeginProcess", synthetic=True))
+            phase = "processed" if e == "EndProcess" else "process"
+        elif e in ("AppendPickle", "UpdateIntegral"):
+            if phase == "started":
+                out.append(dict(e="BeginProcess", synthetic=True))
+                phase = "process"
+            if phase == "process":
+                out.append(dict(e="EndProcess", synthetic=True))
+                phase = "processed"
+            if e == "UpdateIntegral" and phase == "processed":
+                out.append(dict(e="AppendPickle", synthetic=True))
+            phase = "pickled" if e == "AppendPickle" else "idle"
+        out.append(ev)
+    return out
+
+
+def _run(traces, geo, nstep, name, acc, sorted_listing, diagnose, strict, timeout, tolerate_error=False):
     wd = os.path.join(tlc.WORK, "traces", name)
     os.makedirs(wd, exist_ok=True)
     tf = os.path.join(wd, "traces.json")
     with open(tf, "w") as f:
         json.dump({"traces": [_clean(t) for t in traces]}, f)
-    st = tlc.run_tlc("RunGridTrace.tla", _cfg(geo, nstep, acc, sorted_listing, diagnose), "trace_" + name, workers=1,
+    st = tlc.run_tlc("RunGridTrace.tla", _cfg(geo, nstep, acc, sorted_listing, diagnose, strict), "trace_" + name, workers=1,
                      coverage=False, env={"TRACE_FILE": tf}, timeout=timeout, dfs=True)
-    if st.get("error") or st["distinct"] == 0 or st.get("timeout"):
+    st["scratch"] = [wd, st.get("meta")]
+    if st.get("timeout"):
+        raise MachineryError(f"trace validation TLC run timed out ({name})")
+    if (st.get("error") or st["distinct"] == 0) and not tolerate_error:
         raise MachineryError(f"trace validation TLC run failed ({name}): {st.get('error') or st['output'][-800:]}")
     return st
 
 
-def validate(traces, geo, nstep, name, acc=True, sorted_listing=True, timeout=1800):
-    """returns (stats, verdicts) ; verdicts[i] = dict(ok=bool, why=str, at=int)"""
-    if not traces:
-        return dict(distinct=0, generated=0), []
-    st = _run(traces, geo, nstep, name, acc, sorted_listing, False, timeout)
-    out = st["output"]
+def _parse(out):
     accepted = set(int(x) for x in re.findall(r'^<<"ACCEPT", (\d+)>>', out, re.M))
     inv = {}
     for t, l, n in re.findall(r'^<<"INVARIANT", (\d+), (\d+), "(\w+)">>', out, re.M):
         inv.setdefault(int(t), []).append((int(l), n))
-    verdicts = []
-    bad = []
-    for i in range(1, len(traces) + 1):
-        if i in inv:
-            l, n = sorted(inv[i])[0]
-            ev = traces[i - 1][l - 2]["e"] if 2 <= l <= len(traces[i - 1]) + 1 else "?"
-            verdicts.append(dict(ok=False, why=f"invariant {n} violated after event #{l - 1} ({ev})", at=l - 1, clause=n))
-        elif i in accepted:
-            verdicts.append(dict(ok=True, why="accepted", at=len(traces[i - 1])))
-        else:
-            verdicts.append(None)
-            bad.append(i)
-    if bad:
-        sub = [traces[i - 1] for i in bad]
-        st2 = _run(sub, geo, nstep, name + "_diag", acc, sorted_listing, True, timeout)
-        o2 = st2["output"]
-        at = {}
-        for t, l in re.findall(r'^<<"AT", (\d+), (\d+)>>', o2, re.M):
-            at[int(t)] = max(at.get(int(t), 0), int(l))
-        mism = {}
-        for t, l, n in re.findall(r'^<<"MISMATCH", (\d+), (\d+), "([\w.]+)">>', o2, re.M):
-            mism.setdefault(int(t), []).append((int(l), n))
-        for j, i in enumerate(bad, start=1):
-            tr = traces[i - 1]
-            if j in mism:
-                l, n = sorted(mism[j])[0]
-                why = f"event #{l} ({tr[l - 1]['e']}): projected field '{n}' differs from the specification"
-                verdicts[i - 1] = dict(ok=False, why=why, at=l, clause=n)
+    at = {}
+    for t, l in re.findall(r'^<<"AT", (\d+), (\d+)>>', out, re.M):
+        at[int(t)] = max(at.get(int(t), 0), int(l))
+    mism = {}
+    for t, l, n in re.findall(r'^<<"MISMATCH", (\d+), (\d+), "([\w.]+)">>', out, re.M):
+        mism.setdefault(int(t), []).append((int(l), n))
+    return accepted, inv, at, mism
+
+
+def _ename(tr, l):
+    return tr[l - 1].get("e", "?") if 1 <= l <= len(tr) else "(end)"
+
+
+def validate(traces, geo, nstep, name, acc=True, sorted_listing=True, timeout=3600, levels=("strict", "property")):
+    """returns (list of TLC stats, verdicts); verdicts[i] = dict(ok, why, at, clause, level, repr)
+    repr (when the strict level rejected but the property level accepted): dict(at, event, clause).
+    Both levels run with Diagnose = TRUE (one TLC run gives the verdict and the name of the first differing field): a
+    trace is accepted iff TLC walked it to the end without MISMATCH and without INVARIANT line."""
+    if not traces:
+        return [], []
+    stats = []
+    n = len(traces)
+    verdicts = [None] * n
+    todo = list(range(n))      # indices still undecided after the strict level
+    strict_info = {}
+    if "strict" in levels:
+        st = _run(traces, geo, nstep, name + "_s", acc, sorted_listing, True, True, timeout, tolerate_error=True)
+        stats.append(st)
+        accepted, inv, at, mism = _parse(st.get("output", ""))
+        todo = []
+        for i in range(n):
+            tr = traces[i]
+            t = i + 1
+            first_m = sorted(mism[t])[0] if t in mism else None
+            first_i = sorted(inv[t])[0] if t in inv else None
+            if first_i is not None and (first_m is None or first_i[0] - 1 < first_m[0]):
+                # an invariant of RunGrid fails in a state that matched the implementation so far
+                l, nm = first_i
+                verdicts[i] = dict(ok=False, level="strict", clause=nm, at=l - 1,
+                                   why=f"invariant {nm} violated after event #{l - 1} ({_ename(tr, l - 1)})")
+            elif t in accepted and first_m is None:
+                verdicts[i] = dict(ok=True, level="strict", why="accepted", at=len(tr))
+            else:
+                if first_m is not None:
+                    strict_info[i] = dict(at=first_m[0], event=_ename(tr, first_m[0]), clause=first_m[1])
+                else:
+                    l = at.get(t, 1)
+                    strict_info[i] = dict(at=l, event=_ename(tr, l), clause=None)
+                if st.get("error"):
+                    strict_info[i]["tlc_error"] = st["error"][:160]
+                todo.append(i)
+    if todo and "property" not in levels:
+        for i in todo:
+            si = strict_info[i]
+            verdicts[i] = dict(ok=False, level="strict", clause=si["clause"] or ("enabledness:" + si["event"]), at=si["at"],
+                               why=f"strict level: event #{si['at']} ({si['event']}): {si['clause'] or 'not enabled'}")
+        todo = []
+    if todo:
+        sub = [coarse(traces[i]) for i in todo]
+        st = _run(sub, geo, nstep, name + "_p", acc, sorted_listing, True, False, timeout, tolerate_error=True)
+        diag = True
+        if st.get("error") or st["distinct"] == 0:
+            # evaluation continued on a state that no longer fits the trace and hit an error: decide without diagnosis
+            st = _run(sub, geo, nstep, name + "_p0", acc, sorted_listing, False, False, timeout)
+            diag = False
+        stats.append(st)
+        accepted, inv, at, mism = _parse(st["output"])
+        for j, i in enumerate(todo, start=1):
+            tr = sub[j - 1]
+            first_m = sorted(mism[j])[0] if (diag and j in mism) else None
+            first_i = sorted(inv[j])[0] if j in inv else None
+            if first_m is not None and (first_i is None or first_m[0] <= first_i[0] - 1):
+                l, nm = first_m
+                verdicts[i] = dict(ok=False, level="property", clause=nm, at=l, trace=tr,
+                                   why=f"event #{l} ({_ename(tr, l)}) of the coarse trace: '{nm}' differs from the specification")
+            elif first_i is not None:
+                l, nm = first_i
+                verdicts[i] = dict(ok=False, level="property", clause=nm, at=l - 1, trace=tr,
+                                   why=f"invariant {nm} violated after event #{l - 1} ({_ename(tr, l - 1)}) of the coarse trace")
+            elif j in accepted:
+                verdicts[i] = dict(ok=True, level="property", why="accepted on the property level", at=len(tr), repr=strict_info.get(i))
             else:
                 l = at.get(j, 1)
-                nxt = tr[l - 1]["e"] if l <= len(tr) else "(end)"
-                why = f"event #{l} ({nxt}) is not enabled in the specification after the accepted prefix"
-                verdicts[i - 1] = dict(ok=False, why=why, at=l, clause="enabledness:" + nxt)
-    return st, verdicts
+                nxt = _ename(tr, l)
+                verdicts[i] = dict(ok=False, level="property", clause="enabledness:" + nxt, at=l, trace=tr,
+                                   why=f"event #{l} ({nxt}) of the coarse trace is not enabled in the specification after the accepted prefix")
+    return stats, verdicts
